@@ -399,8 +399,11 @@ def load_tcs(gwy: Gateway, ctl_id: DeviceIdT, schema: dict[str, Any]) -> Evohome
     ctl = _get_device(gwy, ctl_id)
     ctl.tcs._update_schema(**schema)
 
-    for dev_id in schema.get(SZ_UFH_SYSTEM, {}):  # UFH controllers
-        _get_device(gwy, dev_id, parent=ctl.tcs)  # , **_schema)
+    for dev_id, ufc_schema in schema.get(SZ_UFH_SYSTEM, {}).items():  # UFH controllers
+        ufc = _get_device(gwy, dev_id, parent=ctl.tcs)  # , **_schema)
+        for ufh_idx, circuit in ((ufc_schema or {}).get(SZ_CIRCUITS) or {}).items():
+            if ufh_idx in ufc.circuit_by_id and isinstance(circuit, dict) and circuit:
+                ufc.circuit_by_id[ufh_idx] = {SZ_ZONE_IDX: circuit.get(SZ_ZONE_IDX)}
 
     for dev_id in schema.get(SZ_ORPHANS, []):
         _get_device(gwy, dev_id, parent=ctl)
